@@ -43,6 +43,10 @@ impl serde::de::Error for SerErr {
     fn custom<T: core::fmt::Display>(_: T) -> Self {
         SerErr(254)
     }
+    // a structured error that re-rendering through `custom` cannot reproduce
+    fn invalid_length(len: usize, _: &dyn serde::de::Expected) -> Self {
+        SerErr(len as u8)
+    }
 }
 struct Tok(u8);
 static mut UNIT_CALLS: usize = 0;
@@ -187,7 +191,7 @@ impl<'de> Deserialize<'de> for Q {
             DE_CALLS += 1;
             match DE_RESULT {
                 Ok(v) => Ok(Q(v)),
-                Err(e) => Err(<D::Error as serde::de::Error>::custom(Code(e))),
+                Err(e) => Err(<D::Error as serde::de::Error>::invalid_length(e as usize, &"a Q")),
             }
         }
     }
@@ -195,6 +199,7 @@ impl<'de> Deserialize<'de> for Q {
 h!(q_de_arc, {
     let ok: bool = kani::any();
     let v: u8 = kani::any();
+    kani::assume(v != 254);
     unsafe { DE_RESULT = if ok { Ok(v) } else { Err(v) } };
     let r = <Arc<Q> as Deserialize>::deserialize(De(0));
     assert!(unsafe { DE_CALLS } == 1, "the value's own deserialiser must be run exactly once");
@@ -207,7 +212,7 @@ h!(q_de_arc, {
             assert!(n_live() == 0);
         }
         Err(e) => {
-            assert!(!ok && e == SerErr(254), "error was not passed through unchanged");
+            assert!(!ok && e == SerErr(v), "error was not passed through unchanged");
             assert!(n_live() == 0, "a failed deserialisation left an allocation behind");
         }
     }
@@ -217,6 +222,7 @@ h!(q_de_arc, {
 h!(q_de_unique, {
     let ok: bool = kani::any();
     let v: u8 = kani::any();
+    kani::assume(v != 254);
     unsafe { DE_RESULT = if ok { Ok(v) } else { Err(v) } };
     let r = <UniqueArc<Q> as Deserialize>::deserialize(De(0));
     assert!(unsafe { DE_CALLS } == 1);
@@ -229,7 +235,7 @@ h!(q_de_unique, {
             assert!(n_live() == 0);
         }
         Err(e) => {
-            assert!(!ok && e == SerErr(254));
+            assert!(!ok && e == SerErr(v), "error was not passed through unchanged");
             assert!(n_live() == 0, "a failed deserialisation left an allocation behind");
         }
     }
